@@ -26,6 +26,29 @@ pub enum Turn {
 pub struct Handoff {
     pub turn: Mutex<Turn>,
     pub cv: Condvar,
+    /// what the intercepted call the thread is parked before must do instead of succeeding
+    /// (set by the executor from the fault plan, consumed by the call): see `INJ_*`
+    pub inject: std::sync::atomic::AtomicU8,
+}
+
+pub const INJ_NONE: u8 = 0;
+/// the call fails with this errno
+pub const INJ_EIO: u8 = 1;
+pub const INJ_ENOSPC: u8 = 2;
+pub const INJ_EACCES: u8 = 3;
+/// the call is interrupted by a signal handler before it did anything (EINTR): legal at any time
+pub const INJ_EINTR: u8 = 4;
+/// write(2) accepts only part of the buffer (legal at any time: a nearly full disk, a signal)
+pub const INJ_SHORT: u8 = 5;
+
+pub fn inject_code(kind: &str) -> u8 {
+    match kind {
+        "enospc" => INJ_ENOSPC,
+        "eacces" => INJ_EACCES,
+        "eintr" => INJ_EINTR,
+        "short" => INJ_SHORT,
+        _ => INJ_EIO,
+    }
 }
 
 thread_local! {
@@ -39,11 +62,11 @@ pub fn on_worker_thread() -> bool {
     MY.try_with(|m| !m.get().is_null()).unwrap_or(false)
 }
 
-/// Called from the interposed libc functions.
-fn yield_point(site: &'static str) {
+/// Called from the interposed libc functions. Returns what the call has to do (`INJ_*`).
+fn yield_point(site: &'static str) -> u8 {
     let h = match MY.try_with(|m| m.get()) {
         Ok(p) if !p.is_null() => p,
-        _ => return,
+        _ => return INJ_NONE,
     };
     // SAFETY: the Handoff outlives the thread (an Arc clone is kept by the thread closure)
     let h: &Handoff = unsafe { &*h };
@@ -53,6 +76,20 @@ fn yield_point(site: &'static str) {
     while !matches!(*t, Turn::Worker) {
         t = h.cv.wait(t).unwrap();
     }
+    h.inject.swap(INJ_NONE, std::sync::atomic::Ordering::SeqCst)
+}
+
+/// errno + -1 for an injected failure, None when the call goes ahead
+unsafe fn injected_failure(code: u8) -> Option<libc::c_int> {
+    let e = match code {
+        INJ_EIO => libc::EIO,
+        INJ_ENOSPC => libc::ENOSPC,
+        INJ_EACCES => libc::EACCES,
+        INJ_EINTR => libc::EINTR,
+        _ => return None,
+    };
+    *libc::__errno_location() = e;
+    Some(-1)
 }
 
 pub struct Worker<T> {
@@ -65,7 +102,7 @@ where
     F: FnOnce() -> T + Send + 'static,
     T: Send + 'static,
 {
-    let handoff = Arc::new(Handoff { turn: Mutex::new(Turn::Yielded("start")), cv: Condvar::new() });
+    let handoff = Arc::new(Handoff { turn: Mutex::new(Turn::Yielded("start")), cv: Condvar::new(), inject: std::sync::atomic::AtomicU8::new(INJ_NONE) });
     let result = Arc::new(Mutex::new(None));
     let h2 = handoff.clone();
     let r2 = result.clone();
@@ -125,7 +162,9 @@ unsafe fn path_has_workdir(p: *const libc::c_char) -> bool {
 /// Same contract as mkdir(2).
 #[no_mangle]
 pub unsafe extern "C" fn mkdir(path: *const libc::c_char, mode: libc::mode_t) -> libc::c_int {
-    yield_point("mkdir");
+    if let Some(r) = injected_failure(yield_point("mkdir")) {
+        return r;
+    }
     libc::syscall(libc::SYS_mkdir, path, mode as libc::c_uint) as libc::c_int
 }
 
@@ -133,7 +172,9 @@ pub unsafe extern "C" fn mkdir(path: *const libc::c_char, mode: libc::mode_t) ->
 /// Same contract as rename(2).
 #[no_mangle]
 pub unsafe extern "C" fn rename(from: *const libc::c_char, to: *const libc::c_char) -> libc::c_int {
-    yield_point("rename");
+    if let Some(r) = injected_failure(yield_point("rename")) {
+        return r;
+    }
     libc::syscall(libc::SYS_rename, from, to) as libc::c_int
 }
 
@@ -141,7 +182,9 @@ pub unsafe extern "C" fn rename(from: *const libc::c_char, to: *const libc::c_ch
 /// Same contract as unlink(2).
 #[no_mangle]
 pub unsafe extern "C" fn unlink(path: *const libc::c_char) -> libc::c_int {
-    yield_point("unlink");
+    if let Some(r) = injected_failure(yield_point("unlink")) {
+        return r;
+    }
     libc::syscall(libc::SYS_unlink, path) as libc::c_int
 }
 
@@ -149,7 +192,9 @@ pub unsafe extern "C" fn unlink(path: *const libc::c_char) -> libc::c_int {
 /// Same contract as rmdir(2).
 #[no_mangle]
 pub unsafe extern "C" fn rmdir(path: *const libc::c_char) -> libc::c_int {
-    yield_point("rmdir");
+    if let Some(r) = injected_failure(yield_point("rmdir")) {
+        return r;
+    }
     libc::syscall(libc::SYS_rmdir, path) as libc::c_int
 }
 
@@ -158,7 +203,9 @@ pub unsafe extern "C" fn rmdir(path: *const libc::c_char) -> libc::c_int {
 #[no_mangle]
 pub unsafe extern "C" fn open64(path: *const libc::c_char, flags: libc::c_int, mode: libc::mode_t) -> libc::c_int {
     if flags & (libc::O_WRONLY | libc::O_RDWR | libc::O_CREAT | libc::O_TRUNC) != 0 {
-        yield_point("open-for-write");
+        if let Some(r) = injected_failure(yield_point("open-for-write")) {
+            return r;
+        }
     }
     libc::syscall(libc::SYS_openat, libc::AT_FDCWD, path, flags | libc::O_LARGEFILE, mode as libc::c_uint) as libc::c_int
 }
@@ -167,8 +214,14 @@ pub unsafe extern "C" fn open64(path: *const libc::c_char, flags: libc::c_int, m
 /// Same contract as write(2).
 #[no_mangle]
 pub unsafe extern "C" fn write(fd: libc::c_int, buf: *const libc::c_void, n: libc::size_t) -> libc::ssize_t {
+    let mut n = n;
     if fd > 2 {
-        yield_point("write");
+        let code = yield_point("write");
+        if code == INJ_SHORT {
+            n = (n / 2).max(1).min(n);
+        } else if let Some(r) = injected_failure(code) {
+            return r as libc::ssize_t;
+        }
     }
     libc::syscall(libc::SYS_write, fd, buf, n) as libc::ssize_t
 }
@@ -178,7 +231,7 @@ pub unsafe extern "C" fn write(fd: libc::c_int, buf: *const libc::c_void, n: lib
 #[no_mangle]
 pub unsafe extern "C" fn statx(dirfd: libc::c_int, path: *const libc::c_char, flags: libc::c_int, mask: libc::c_uint, buf: *mut libc::statx) -> libc::c_int {
     if path_has_workdir(path) {
-        yield_point("stat");
+        let _ = yield_point("stat");
     }
     libc::syscall(libc::SYS_statx, dirfd, path, flags, mask, buf) as libc::c_int
 }
